@@ -27,6 +27,9 @@ pub fn call(req: &Value) -> Value {
     let a = &req["args"];
     match f {
         "compute_mint_amount" => {
+            #[cfg(has_compute_mint_amount)]
+            {
+                {
             let r = staking::helpers::compute_mint_amount(
                 u128_arg(&a[0]),
                 u128_arg(&a[1]),
@@ -34,13 +37,28 @@ pub fn call(req: &Value) -> Value {
             );
             json!({"ok": r.to_string()})
         }
+            }
+            #[cfg(not(has_compute_mint_amount))]
+            {
+                json!({"bad": "missing helper compute_mint_amount"})
+            }
+        }
         "compute_unbond_amount" => {
+            #[cfg(has_compute_unbond_amount)]
+            {
+                {
             let r = staking::helpers::compute_unbond_amount(
                 u128_arg(&a[0]),
                 u128_arg(&a[1]),
                 u128_arg(&a[2]),
             );
             json!({"ok": r.to_string()})
+        }
+            }
+            #[cfg(not(has_compute_unbond_amount))]
+            {
+                json!({"bad": "missing helper compute_unbond_amount"})
+            }
         }
         "multiply_ratio" => {
             let r = u128_arg(&a[0]).multiply_ratio(u128_arg(&a[1]), u128_arg(&a[2]));
@@ -50,14 +68,35 @@ pub fn call(req: &Value) -> Value {
             let r = Decimal::from_ratio(u128_arg(&a[0]), u128_arg(&a[1]));
             json!({"ok": r.to_string()})
         }
-        "validate_address_prefix" => std_res(staking::helpers::validate_address_prefix(&sarg(&a[0]))),
-        "validate_address" => std_res(
+        "validate_address_prefix" => {
+            #[cfg(has_validate_address_prefix)]
+            {
+                std_res(staking::helpers::validate_address_prefix(&sarg(&a[0])))
+            }
+            #[cfg(not(has_validate_address_prefix))]
+            {
+                json!({"bad": "missing helper validate_address_prefix"})
+            }
+        }
+        "validate_address" => {
+            #[cfg(has_validate_address)]
+            {
+                std_res(
             staking::helpers::validate_address(&sarg(&a[0]), &sarg(&a[1])).map(|x| x.to_string()),
-        ),
+        )
+            }
+            #[cfg(not(has_validate_address))]
+            {
+                json!({"bad": "missing helper validate_address"})
+            }
+        }
         "treasury_validate_address" => std_res(
             treasury::helpers::validate_address(&sarg(&a[0]), &sarg(&a[1])).map(|x| x.to_string()),
         ),
         "validate_addresses" => {
+            #[cfg(has_validate_addresses)]
+            {
+                {
             let v: Vec<String> = a[0]
                 .as_array()
                 .map(|x| x.iter().map(sarg).collect())
@@ -67,17 +106,54 @@ pub fn call(req: &Value) -> Value {
                     .map(|x| x.into_iter().map(|y| y.to_string()).collect::<Vec<_>>()),
             )
         }
-        "validate_denom" => std_res(staking::helpers::validate_denom(sarg(&a[0]))),
-        "validate_ibc_denom" => std_res(staking::helpers::validate_ibc_denom(sarg(&a[0]))),
+            }
+            #[cfg(not(has_validate_addresses))]
+            {
+                json!({"bad": "missing helper validate_addresses"})
+            }
+        }
+        "validate_denom" => {
+            #[cfg(has_validate_denom)]
+            {
+                std_res(staking::helpers::validate_denom(sarg(&a[0])))
+            }
+            #[cfg(not(has_validate_denom))]
+            {
+                json!({"bad": "missing helper validate_denom"})
+            }
+        }
+        "validate_ibc_denom" => {
+            #[cfg(has_validate_ibc_denom)]
+            {
+                std_res(staking::helpers::validate_ibc_denom(sarg(&a[0])))
+            }
+            #[cfg(not(has_validate_ibc_denom))]
+            {
+                json!({"bad": "missing helper validate_ibc_denom"})
+            }
+        }
         "derive_intermediate_sender" => std_res(staking::helpers::derive_intermediate_sender(
             &sarg(&a[0]),
             &sarg(&a[1]),
             &sarg(&a[2]),
         )),
         "address_hash" => {
+            #[allow(unused_variables)]
             let key = hex::decode(a[1].as_str().unwrap_or("")).unwrap_or_default();
-            let h = staking::helpers::addess_hash(&sarg(&a[0]), &key);
-            json!({"ok": hex::encode(h)})
+            #[cfg(has_addess_hash)]
+            {
+                let h = staking::helpers::addess_hash(&sarg(&a[0]), &key);
+                json!({"ok": hex::encode(h)})
+            }
+            #[cfg(all(has_address_hash, not(has_addess_hash)))]
+            {
+                let h = staking::helpers::address_hash(&sarg(&a[0]), &key);
+                json!({"ok": hex::encode(h)})
+            }
+            #[cfg(not(any(has_addess_hash, has_address_hash)))]
+            {
+                json!({"bad": "missing helper address_hash"})
+            }
         }
         "channel_ok" => {
             // the channel test in isolation: every other field of the section is valid
